@@ -746,7 +746,7 @@ func (s *Sched) spawn(name string, f func(), service bool) *thread {
 func trimStack(st string) string {
 	var keep []string
 	for _, l := range strings.Split(st, "\n") {
-		if strings.Contains(l, "go-upf/internal/") && !strings.Contains(l, "/vsched/") {
+		if strings.Contains(l, "go-upf/internal/") && !strings.Contains(l, "verif/vsched") && !strings.HasPrefix(l, "\t") {
 			keep = append(keep, strings.TrimSpace(l))
 		}
 		if len(keep) >= 8 {
